@@ -1464,6 +1464,7 @@ func (s *levelsController) runCompactDef(id, l int, cd compactDef) (err error) {
 		return err
 	}
 	verifNewTables(&cd, newTables)
+	verifPoint("persist.compact.built", uint64(len(newTables)))
 	defer func() {
 		// Only assign to err, if it's not already nil.
 		if decErr := decr(); err == nil {
@@ -1476,6 +1477,7 @@ func (s *levelsController) runCompactDef(id, l int, cd compactDef) (err error) {
 	if err := s.kv.manifest.addChanges(changeSet.Changes, s.kv.opt); err != nil {
 		return err
 	}
+	verifPoint("persist.compact.manifest")
 
 	getSizes := func(tables []*table.Table) int64 {
 		size := int64(0)
@@ -1501,6 +1503,7 @@ func (s *levelsController) runCompactDef(id, l int, cd compactDef) (err error) {
 	if err := thisLevel.deleteTables(cd.top); err != nil {
 		return err
 	}
+	verifPoint("persist.compact.installed")
 
 	// Note: For level 0, while doCompact is running, it is possible that new tables are added.
 	// However, the tables are added only to the end, so it is ok to just delete the first table.
